@@ -268,6 +268,13 @@ def _composite(db, chk, m):
 
 def _string_detection(db, chk):
     """R6: 'does this column hold decoded names' must accept every dtype pandas uses for strings"""
+    ut = db.mod("hta.utils.utils")
+    g = ut.func("get_symbol_column_names")
+    cands = [[H.str_const(e) for e in lp.iter.elts] for lp in ast.walk(g) if isinstance(lp, ast.For) and isinstance(lp.iter, (ast.List, ast.Tuple))]
+    firsts = [any(isinstance(x, ast.Break) for x in ast.walk(lp)) for lp in ast.walk(g) if isinstance(lp, ast.For) and isinstance(lp.iter, (ast.List, ast.Tuple))]
+    okc = sorted(cands) == sorted([["name", "s_name"], ["cat", "s_cat"]]) and all(firsts)
+    chk.ob("C18.R6-string-detection", "the decoded column is looked for under `name` / `cat` FIRST and under `s_name` / `s_cat` only otherwise (first match wins)", okc if cands else None, ut.loc(g),
+           found=cands, accepted=[["name", "s_name"], ["cat", "s_cat"]], why="preferring s_name makes NameFilter match the SHORTENED names of a frame that carries both: unanchored patterns select other rows")
     sites = [("hta.utils.utils", "get_symbol_column_names"), (TF, "NameStringColumnFilter.__call__")]
     for mn, q in sites:
         mod = db.mod(mn)
